@@ -29,9 +29,12 @@ def run(tier, seed):
     c01.standard_families(chk, tier, seed, rng, nrand_quick=100, nrand_thorough=3000, matrix=(2, False))
     n = 60 if tier == "quick" else 1500
     chk.run(c04.order_scenarios("v1", rng, n) + c04.order_scenarios("v2", rng, n), name="order")
+    sizes = (5, 6, 7, 8, 9) if tier == "quick" else (5, 6, 7, 8, 9, 10, 12, 16)
+    chk.run(c04.hole_scenarios("v1", sizes) + c04.hole_scenarios("v2", sizes), name="holes")
     chk.validate()
     return chk.finish(nontrivial,
-                      "as C01 plus the order-stress family; non-trivial = >= 2 writes and (fan-out, merged sources, "
+                      "as C01 plus the order-stress family and the holes family (one batch of 5..9 records through two chained "
+                      "processors, every subset of one or two records taken out by the first one); non-trivial = >= 2 writes and (fan-out, merged sources, "
                       "parallel workers or a non-pass processor result); distinct = distinct write log",
                       c01.ASSUMPTIONS)
 
